@@ -44,16 +44,20 @@ Fixpoint fs_get (x : bytes) (fs : fset) : option value :=
 Definition a_get (x : bytes) (s : astack) : option value :=
   match s with fs :: _ => fs_get x fs | [] => None end.
 
-(* StackFrame.defineTyped at the top frame: error when already defined in the same scope or when the gate rejects *)
-Definition a_define (x : bytes) (t : tyname) (v : value) (s : astack) : option astack :=
+(* an operation on the top frame of the current frameset *)
+Definition a_top (h : scope -> option scope) (s : astack) : option astack :=
   match s with
-  | (sc :: fs) :: r =>
-      match sget x sc with
-      | Some _ => None
-      | None => if gate t v then Some (((sc ++ [(x, {| b_ty := t; b_val := v |})]) :: fs) :: r) else None
-      end
+  | (sc :: fs) :: r => match h sc with Some sc' => Some ((sc' :: fs) :: r) | None => None end
   | _ => None
   end.
+
+(* StackFrame.defineTyped at the top frame: error when already defined in the same scope or when the gate rejects *)
+Definition sc_define (x : bytes) (t : tyname) (v : value) (sc : scope) : option scope :=
+  match sget x sc with
+  | Some _ => None
+  | None => if gate t v then Some (sc ++ [(x, {| b_ty := t; b_val := v |})]) else None
+  end.
+Definition a_define (x : bytes) (t : tyname) (v : value) (s : astack) : option astack := a_top (sc_define x t v) s.
 
 (* StackFrame.set: Assign through the gate of the existing slot, else new "any" slot *)
 Definition sc_set (x : bytes) (v : value) (sc : scope) : option scope :=
@@ -62,11 +66,7 @@ Definition sc_set (x : bytes) (v : value) (sc : scope) : option scope :=
   | None => Some (sc ++ [(x, {| b_ty := TAny; b_val := v |})])
   end.
 
-Definition a_set_at_scope (x : bytes) (v : value) (s : astack) : option astack :=
-  match s with
-  | (sc :: fs) :: r => match sc_set x v sc with Some sc' => Some ((sc' :: fs) :: r) | None => None end
-  | _ => None
-  end.
+Definition a_set_at_scope (x : bytes) (v : value) (s : astack) : option astack := a_top (sc_set x v) s.
 
 (* StackFrameSet.set: the nearest enclosing frame that has the name, else the current frame.
    Result: None = no frame has it; Some None = gate error; Some (Some fs') = updated. *)
@@ -238,26 +238,21 @@ Fixpoint cfl_get (x : bytes) (fl : list cframe) : option value :=
 Definition c_get (x : bytes) (s : cstack) : option value :=
   match sets s with fs :: _ => cfl_get x (frames fs) | [] => None end.
 
-Definition with_top_frames (s : cstack) (g : list cframe -> option (list cframe)) : option cstack :=
+Definition c_top (g : cframe -> option cframe) (s : cstack) : option cstack :=
   match sets s with
-  | fs :: r => match g (frames fs) with
-               | Some fl => Some {| sets := {| frames := fl; fpool := fpool fs |} :: r; spool := spool s |}
-               | None => None
-               end
+  | fs :: r =>
+      match frames fs with
+      | f :: fl => match g f with
+                   | Some f' => Some {| sets := {| frames := f' :: fl; fpool := fpool fs |} :: r; spool := spool s |}
+                   | None => None
+                   end
+      | [] => None
+      end
   | [] => None
   end.
 
-Definition c_define (x : bytes) (t : tyname) (v : value) (s : cstack) : option cstack :=
-  with_top_frames s (fun fl => match fl with
-                               | f :: r => match cf_define x t v f with Some f' => Some (f' :: r) | None => None end
-                               | [] => None
-                               end).
-
-Definition c_set_at_scope (x : bytes) (v : value) (s : cstack) : option cstack :=
-  with_top_frames s (fun fl => match fl with
-                               | f :: r => match cf_set x v f with Some f' => Some (f' :: r) | None => None end
-                               | [] => None
-                               end).
+Definition c_define (x : bytes) (t : tyname) (v : value) (s : cstack) : option cstack := c_top (cf_define x t v) s.
+Definition c_set_at_scope (x : bytes) (v : value) (s : cstack) : option cstack := c_top (cf_set x v) s.
 
 Fixpoint cfl_set_existing (x : bytes) (v : value) (fl : list cframe) : option (option (list cframe)) :=
   match fl with
